@@ -34,8 +34,13 @@ ASSUMPTIONS = [
     "the last top-level node of a generated tree has a child (F259).  Each of these findings has explicit witnesses run on every invocation",
     "corrections made to the machinery while building it (no claim was loosened): bare `/` is parenthesised when it is an operand (REC §3.7 lexing); "
     "`.` is evaluated as the step self::node(); value-aware predicates use integer literals only for digit strings; batches of 12 trees",
+    "the expression text reaches the engine through the Lean model of lyxp_expr_parse (LyModel/XPath/Lex.lean, Parse.lean); the model is tied "
+    "to xpath.c by the white-box token differential (wb_xpath xplex / xpparse: kind, offset, length, exp->repeat of every token) and by the "
+    "extractor of its tables (Generated/XpConsts.lean), not by a C semantics; parse_render_roundtrip is a theorem about that model",
 ]
-TRUSTED = ["harness/api_xpath.c, harness/wb_xpath.c", "python AST -> XPath text / prefix form renderers in tools/checks/xpcomp.py",
+TRUSTED = ["harness/api_xpath.c, harness/wb_xpath.c",
+           "python AST -> XPath text / prefix form renderers in tools/checks/xpcomp.py (cross-checked on every evaluation: the text parsed by the "
+           "model parser and the prefix form must denote the same tree)", "tools/extractors/xpath.py",
            "LyModel/XPath/FloatNum.lean (Float instance of the number type, driver only)"]
 
 HARNESS = "api_xpath"
